@@ -8,15 +8,19 @@ from vlib import vbytes, vlist, vopt, vbool, parse_val
 
 NEED_RG = False
 MANIFEST = dict(
-    text="Coq theorems by induction on the HIR, for all haystacks: strip_sound / strip_rejects_not_alters "
-         "(terminator stripping removes exactly the terminator-containing matches; an error only for a literal or "
-         "one-point class equal to the terminator), non_matching_sound (a byte declared non-matching occurs in no "
-         "match), terminator_withheld_with_anchors, ends_spec (executable semantics = declarative), "
-         "inner_literals_sound (every match contains an extracted literal, hence the candidate search cannot skip "
-         "a matching line): see notes/C11.md for which parts of the literal extractor are proved (`_partial`). Tie "
-         "to the code: hooks dump the translated and the final HIR, the non-matching set and the literal sequences; "
-         "the extracted models are run on the same HIRs and every observable is diffed; the Coq HIR semantics is "
-         "compared with regex-automata (find/is_match/find_iter and LookMatcher) on generated lines.",
+    text="Coq theorems by induction on the HIR, for all haystacks, unbounded: ends_spec (executable semantics = "
+         "declarative relation), strip_sound / strip_rejects_not_alters / strip_error_witness (terminator stripping "
+         "removes exactly the terminator-containing matches; rejection only for a literal containing the terminator or "
+         "a class with no other member), non_matching_sound (a byte declared non-matching occurs in no match, incl. "
+         "the UTF-8 byte ranges of Unicode classes), terminator_withheld_with_anchors + build_line_terminator_promise, "
+         "extract_invariant / inner_literals_sound / candidate_never_skips_a_matching_line (the whole inner-literal "
+         "extractor: cross, union, choose, repetition shapes, class expansion, limits, "
+         "optimize_for_prefix_by_preference, is_good): every match contains an extracted literal. Tie to the code: "
+         "hooks dump the translated and final HIR, the non-matching set and the literal sequences; the extracted "
+         "models run on the same HIRs (grammar patterns, every string literal of the repository's tests, arbitrary "
+         "HIR values) and every observable is diffed; the Coq HIR semantics is compared with regex-automata "
+         "(find/is_match/find_iter/shortest_match and LookMatcher) on generated lines, and the three promises are "
+         "checked on every semantic match.",
     note="trusted: Coq kernel, extraction, OCaml driver, Rust harness; regex-syntax parser/translator and its "
          "simplifying Hir constructors (the model's stripped HIR is rebuilt through them before comparison); "
          "regex-automata assumed to implement Spec/RegexSem.v (differentially tested every run)",
@@ -266,15 +270,15 @@ def run_builder_cases(ctx, cases, stats):
             if mv[0] != 1 or list(mv[1:3]) != list(verdict[1:3]):
                 ctx.violation("builder verdict: code rejects (kind %s byte %s), model says %s (theorems "
                               "strip_rejects_not_alters/strip_error_witness no longer describe the code)"
-                              % (verdict[1], verdict[2], mo[k][:80]), rep)
+                              % (verdict[1], verdict[2], mo[k][:80]), rep, nfi=True)
             continue
         if mv[0] != 0:
-            ctx.violation("builder verdict: code accepts, model rejects %s" % mo[k][:80], rep)
+            ctx.violation("builder verdict: code accepts, model rejects %s" % mo[k][:80], rep, nfi=True)
             continue
         stats["accepted"] = stats.get("accepted", 0) + 1
         if L(mv[2]) != L(verdict[2]):
             ctx.violation("advertised line terminator differs: model %s code %s (terminator_withheld_with_anchors)"
-                          % (L(mv[2]), L(verdict[2])), rep)
+                          % (L(mv[2]), L(verdict[2])), rep, nfi=True)
         cmp_in.append(vlist([unparse(mv[1]), unparse(verdict[1])]))
         cmp_idx.append(i)
     co = vlib.code(1106, cmp_in)
@@ -287,7 +291,7 @@ def run_builder_cases(ctx, cases, stats):
         if r[0] != 1:
             ctx.violation("final HIR differs: the model's strip/wrap result rebuilt through regex-syntax's constructors "
                           "is not the code's final HIR (strip_sound/strip_rejects_not_alters no longer describe the code)",
-                          rep)
+                          rep, nfi=True)
     # --- B: passes on the code's final HIR;  C: semantics on lines
     p_in, p_idx, s_in, s_code_in = [], [], [], []
     for i, v in enumerate(parsed):
@@ -321,17 +325,17 @@ def run_builder_cases(ctx, cases, stats):
         if code_nmb != model_nmb:
             diff = [b for b in range(256) if code_nmb[b] != model_nmb[b]]
             ctx.violation("non_matching_bytes differs at bytes %s (non_matching_sound no longer describes the code)"
-                          % diff[:10], dict(rep, model=list(model_nmb), code=list(code_nmb)))
+                          % diff[:10], dict(rep, model=list(model_nmb), code=list(code_nmb)), nfi=True)
         for name, a, b in (("Extractor::extract (tagged seq)", pv[1], verdict[4]),
                            ("extract_untagged", pv[2], verdict[5]),
                            ("InnerLiterals (fast line literals)", pv[3], verdict[6])):
             if unparse(a) != unparse(b):
                 ctx.violation("%s differs: model %s code %s (inner_literals_sound no longer describes the code)"
-                              % (name, unparse(a)[:300], unparse(b)[:300]), rep)
+                              % (name, unparse(a)[:300], unparse(b)[:300]), rep, nfi=True)
         if pv[4] != verdict[7]:
-            ctx.violation("fast line regex presence differs: model %s code %s" % (pv[4], verdict[7]), rep)
+            ctx.violation("fast line regex presence differs: model %s code %s" % (pv[4], verdict[7]), rep, nfi=True)
         if L(pv[5]) != L(verdict[2]):
-            ctx.violation("advertised terminator (on the final HIR) differs: model %s code %s" % (L(pv[5]), L(verdict[2])), rep)
+            ctx.violation("advertised terminator (on the final HIR) differs: model %s code %s" % (L(pv[5]), L(verdict[2])), rep, nfi=True)
         if L(verdict[6]):
             stats["fast_regex"] = stats.get("fast_regex", 0) + 1
             nontrivial = True
@@ -355,6 +359,7 @@ def run_builder_cases(ctx, cases, stats):
         if adv:
             tset = {13, 10} if adv[0] == 1 else {adv[1]}
         nm = {b for b in range(256) if code_nmb[b]}
+        fl = [bytes(L(L(x)[0])) for x in L(L(verdict[6])[0])] if L(verdict[6]) else []
         any_match = False
         haystacks = list(c["lines"]) + [buf]
         for li, hay in enumerate(haystacks):
@@ -380,6 +385,9 @@ def run_builder_cases(ctx, cases, stats):
                     break
                 if any(x in nm for x in seg):
                     ctx.violation("a match contains a byte declared non-matching: %s in %r (non_matching_sound)" % ((a, b), hay), rep)
+                    break
+                if fl and not any(l in seg for l in fl):
+                    ctx.violation("a match %r contains none of the fast-line literals %r (inner_literals_sound)" % (seg, fl), rep)
                     break
         # C11-4 on the buffer
         if adv and c["lines"]:
@@ -483,9 +491,9 @@ def run_hir_cases(ctx, n, stats):
         cs, cb = L(v[1]), L(v[2])
         hir_feature_stats(ctx, v[0], stats.setdefault("hir_nodes_arbitrary", {}))
         if list(mb) != list(cb):
-            ctx.violation("ban::check differs: model %s code %s" % (mb, cb), rep)
+            ctx.violation("ban::check differs: model %s code %s" % (mb, cb), rep, nfi=True)
         if ms[0] != cs[0] or (ms[0] == 1 and list(ms) != list(cs)):
-            ctx.violation("strip_from_match verdict differs: model %s code %s" % (unparse(ms)[:100], unparse(cs)[:100]), rep)
+            ctx.violation("strip_from_match verdict differs: model %s code %s" % (unparse(ms)[:100], unparse(cs)[:100]), rep, nfi=True)
         elif ms[0] == 0:
             cmp_in.append(vlist([unparse(ms[1]), unparse(cs[1])]))
             cmp_rep.append(rep)
@@ -494,11 +502,11 @@ def run_hir_cases(ctx, n, stats):
             stats["strip_err_%d" % ms[1]] = stats.get("strip_err_%d" % ms[1], 0) + 1
         pv = L(parse_val(o2[k]))
         if bytes(L(pv[0])) != bytes(L(v[3])):
-            ctx.violation("non_matching_bytes differs on an arbitrary HIR", dict(rep, model=unparse(pv[0]), code=unparse(v[3])))
+            ctx.violation("non_matching_bytes differs on an arbitrary HIR", dict(rep, model=unparse(pv[0]), code=unparse(v[3])), nfi=True)
         if unparse(pv[1]) != unparse(v[4]):
-            ctx.violation("Extractor::extract differs on an arbitrary HIR: model %s code %s" % (unparse(pv[1])[:300], unparse(v[4])[:300]), rep)
+            ctx.violation("Extractor::extract differs on an arbitrary HIR: model %s code %s" % (unparse(pv[1])[:300], unparse(v[4])[:300]), rep, nfi=True)
         if unparse(pv[2]) != unparse(v[5]):
-            ctx.violation("extract_untagged differs on an arbitrary HIR: model %s code %s" % (unparse(pv[2])[:300], unparse(v[5])[:300]), rep)
+            ctx.violation("extract_untagged differs on an arbitrary HIR: model %s code %s" % (unparse(pv[2])[:300], unparse(v[5])[:300]), rep, nfi=True)
         raw = L(v[4])
         key = "rawseq_" + ("inf" if not L(raw[0]) else "finite") + ("" if raw[1] else "_nonprefix")
         stats[key] = stats.get(key, 0) + 1
@@ -538,7 +546,7 @@ def run_hir_cases(ctx, n, stats):
         r = L(parse_val(o)) if not o.startswith(("PANIC", "MISSING", "PARSEFAIL")) else [0, 0]
         if r[1] == 1 and r[0] != 1:
             ctx.violation("strip_from_match result differs on an arbitrary HIR (after rebuilding the model's result through "
-                          "regex-syntax's constructors)", dict(cmp_rep[k], pair=cmp_in[k][:3000]))
+                          "regex-syntax's constructors)", dict(cmp_rep[k], pair=cmp_in[k][:3000]), nfi=True)
         elif r[1] != 1:
             stats["roundtrip_failed_arbitrary"] = stats.get("roundtrip_failed_arbitrary", 0) + 1
 
